@@ -208,6 +208,68 @@ func VerifC13TesterReflexive() {
 	nondet.Cover("tester")
 }
 
+// ---- JSON-tagged columns
+
+type c13Settings struct {
+	Level int64  `json:"level"`
+	Name  string `json:"name"`
+}
+
+type c13JRow struct {
+	Id       int64          `sql:",primary"`
+	Settings *c13Settings   `sql:",json"`
+	ByValue  c13Settings    `sql:",json"`
+	List     []int64        `sql:",json"`
+}
+
+// VerifC13JSONColumns: columns stored as JSON text: a nil pointer / nil slice
+// stays nil (SQL NULL), a non-nil value comes back equal, whichever form
+// (string or []byte) the driver hands the text back in.
+func VerifC13JSONColumns() {
+	s := NewSchema()
+	s.MustRegisterType("jrows", UniqueId, c13JRow{})
+	x := &c13JRow{Id: nondet.Int64("id"), ByValue: c13Settings{Level: nondet.Int64("bv"), Name: "v"}}
+	if nondet.Choice("settings", 2) == 1 {
+		x.Settings = &c13Settings{Level: nondet.Int64("lv"), Name: nondet.StringFrom("nm", "", "n")}
+	}
+	switch nondet.Choice("list", 3) {
+	case 1:
+		x.List = []int64{}
+	case 2:
+		x.List = []int64{nondet.Int64("l0")}
+	}
+	vals, err := s.UnbuildStruct("jrows", x)
+	nondet.Assert(err == nil, "unbuild-ok")
+	if err != nil {
+		return
+	}
+	asString := nondet.Choice("source", 2) == 1
+	row := make([]driver.Value, len(vals))
+	for i, v := range vals {
+		row[i] = v
+		if b, ok := v.([]byte); ok && asString {
+			row[i] = string(b)
+		}
+	}
+	nondet.Assert((row[1] == nil) == (x.Settings == nil), "nil-is-sql-null")
+	back, err := s.BuildStruct("jrows", row)
+	nondet.Assert(err == nil, "build-ok")
+	if err != nil {
+		return
+	}
+	y := back.(*c13JRow)
+	nondet.Assert((y.Settings == nil) == (x.Settings == nil), "nil-pointer-kept")
+	if x.Settings != nil && y.Settings != nil {
+		nondet.Assert(*y.Settings == *x.Settings, "struct-equal")
+	}
+	nondet.Assert(y.ByValue == x.ByValue && y.Id == x.Id, "struct-equal")
+	nondet.Assert(len(y.List) == len(x.List), "struct-equal")
+	if len(x.List) == 1 && len(y.List) == 1 {
+		nondet.Assert(y.List[0] == x.List[0], "struct-equal")
+	}
+	nondet.Cover("json-round-trip")
+}
+
 func VerifC13Witness() {
 	s := c13Schema()
 	x := C13MkRow()
